@@ -344,8 +344,13 @@ def rule_method_names(ctx):
     if 'let op_trait_name=if trait_name=="Sum"{"Add"}else {"Mul"}' not in body and 'let op_trait_name=if trait_name=="Sum"{"Add"}else{"Mul"}' not in body.replace("else {", "else{"):
         ctx.report("sum:op-table", ctx.where(fn.file, fn.node), "Sum -> Add / Product -> Mul mapping changed", {})
     ctx.instance("sum:fold")
-    impl = [s for s in texts if "fn#method_ident<I:" in s]
-    if not impl or "{iter.fold(#identity,#op_path::#op_method_ident)}" not in impl[0]:
+    # the template declaring `fn #method_ident<P: ..Iterator<Item = Self>>(NAME: P)`: whatever the parameter and the argument are called
+    impl = []
+    for s_ in texts:
+        m_ = re.search(r"fn#method_ident<(\w+):derive_more::core::iter::Iterator<Item=Self>>\((\w+):\1\)->Self", s_)
+        if m_:
+            impl.append((s_, m_.group(2)))
+    if not impl or ("{%s.fold(#identity,#op_path::#op_method_ident)}" % impl[0][1]) not in impl[0][0]:
         ctx.report(
             "sum:fold",
             ctx.where(fn.file, fn.node),
